@@ -19,10 +19,15 @@ Ftp::ParseIpPort(const char *buf, const char *forceIp, Ip::Address &addr)
 {
     int h1, h2, h3, h4;
     int p1, p2;
-    const int n = sscanf(buf, "%d,%d,%d,%d,%d,%d",
+    // the field width keeps huge numbers from overflowing (and wrapping to a
+    // plausible value); anything above 255 is rejected below anyway
+    const int n = sscanf(buf, "%4d,%4d,%4d,%4d,%4d,%4d",
                          &h1, &h2, &h3, &h4, &p1, &p2);
 
     if (n != 6 || p1 < 0 || p2 < 0 || p1 > 255 || p2 > 255)
+        return false;
+
+    if (h1 < 0 || h2 < 0 || h3 < 0 || h4 < 0 || h1 > 255 || h2 > 255 || h3 > 255 || h4 > 255)
         return false;
 
     if (forceIp) {
@@ -78,8 +83,8 @@ Ftp::ParseProtoIpPort(const char *buf, Ip::Address &addr)
         return false;
 
     s = e + 1; // skip port delimiter
-    const int port = strtol(s, const_cast<char**>(&e), 10);
-    if (port < 0 || *e != '|')
+    const long port = strtol(s, const_cast<char**>(&e), 10);
+    if (e == s || port < 1 || port > 65535 || *e != '|')
         return false;
 
     if (Config.Ftp.sanitycheck && port < 1024)
